@@ -599,8 +599,14 @@ def stage_glr(work, tier, seed):
             gtext[rid] = text
             for x in seq:
                 inputs["%s#%d" % (rid, x["iid"])] = [x["text"], x["lex"]]
-            cases.append({"id": rid, "grammar": text, "cfg": {"algo": "glr"}, "reuse": True, "max_trees": 150,
-                          "meta": {"nodis": bool(nod), "plain": "meta" not in tags}, "inputs": seq})
+            if nod:
+                # conflict-free: the LR parser reused over the same sequence next to it (C07)
+                cases.append({"id": rid, "grammar": text, "cfg": {"algo": "lr", "tt": "pager"}, "glr": {"algo": "glr"},
+                              "reuse": True, "max_trees": 150,
+                              "meta": {"nodis": bool(nod), "plain": "meta" not in tags}, "inputs": seq})
+            else:
+                cases.append({"id": rid, "grammar": text, "cfg": {"algo": "glr"}, "reuse": True, "max_trees": 150,
+                              "meta": {"nodis": bool(nod), "plain": "meta" not in tags}, "inputs": seq})
     # lexically ambiguous grammars, all lexical strategies off: the oracle works on the
     # token lattice the harness computes with its own matcher
     for gid, text, terms in lexamb_grammars(seed, 10 if tier == "quick" else 60):
